@@ -1016,6 +1016,10 @@ func c19RunRender(e *env, c c19RenderCase, idx int) {
 		e.res.Fail(hx.Violation{Kind: "mismatch", What: "model cannot load the registry", Case: c, Observed: fmt.Sprint(r)}, "")
 		return
 	}
+	// the decidable hypothesis of the Coq theorems (Spec.ErrPos.positions_in_sourceb), evaluated by the extracted function
+	if pr := e.m.Call("positions_ok", key, sx(c.Entry)); len(pr) < 1 || pr[0] != "#1" {
+		e.res.Fail(hx.Violation{Kind: "mismatch", What: "a node position of the entry template lies outside the source recorded for it (hypothesis positions_in_source of the C19 theorems)", Case: c, Observed: fmt.Sprint(pr)}, "")
+	}
 	r := e.m.Call("render", key, sx(c.Entry), "#4000", "none", "none", "-", valueSexp(data.Map{}, ids), ";", valueSexp(d, ids))
 	if len(r) < 5 {
 		e.res.Fail(hx.Violation{Kind: "mismatch", What: "model render failed", Case: c, Observed: fmt.Sprint(r)}, "")
